@@ -20,12 +20,15 @@ ASSUMPTIONS = ["aggregates are compared with sums recomputed from the component 
 
 
 def gen_fn(rng):
-    return gen.gen_system(rng, phases=0.5, n_sources=rng.choice([1, 2, 2, 3, 4]), p_mux=0.6, max_nodes=18, p_neg_src_rs=0.0,
+    return gen.gen_system(rng, phases=0.5, n_sources=rng.choice([1, 2, 2, 3, 4]), p_mux=0.6, max_nodes=18, p_neg_src_rs=0.0, p_dup=0.15, p_rail=0.3,
                           p_group=rng.choice([0.0, 0.3]))
 
 
-def solve_kw(rng):
-    return {"vtol": 1e-10, "itol": 1e-10, "energy": True}
+def solve_kw(rng, desc):
+    kw = {"vtol": 1e-10, "itol": 1e-10, "energy": True}
+    if desc.get("phases") and rng.random() < 0.25:
+        kw["phase"] = rng.choice(sorted(desc["phases"]))       # one phase only: its energies are still shares of the WHOLE cycle
+    return kw
 
 
 tablecheck.make(globals(), cols=["pwr", "loss", "eff", "ener", "iout", "vin"], textcols=["domain", "typ"], oracle=oracles.o_c07,
